@@ -12,6 +12,7 @@
    What is NOT yet a theorem (rests on the correspondence check and the m_runs monitor only): the counting form of
    (a) "exactly one start or abort per command id" over the event log, and termination (e) — see DESIGN §5 C02. *)
 From Cobweb Require Import Machine.
+Require Import Coq.Sorting.Permutation.
 From CobwebProofs Require Import RunnerInv TicketInv TopLevel.
 
 Theorem runner_invariant : forall (P : program) (fuel : nat) (i : instr) (A B : list ent) (w w' : world),
@@ -42,6 +43,14 @@ Theorem postponed_only_for_active : forall (A : list ent) (w : world) (t : ent),
 Proof. intros A w t HI. exact (ic_taken A w HI t). Qed.
 
 Check trees_run_to_completion.
+(* every command that parked event data (system event, broadcast / entity-event / entity / despawn reaction) was set
+   up exactly once over the whole run, by its run or by the abort path; tickets of claims are pairwise distinct and are
+   exactly the tickets of the parked commands *)
+Theorem every_event_carrying_command_is_resolved_exactly_once : forall (P : program) (fuel : nat) (w' : world), run P fuel = Ok w' ->
+  Permutation (ptickets (g_prep w')) (ctickets (g_claim w')) /\ NoDup (ctickets (g_claim w')).
+Proof. exact every_parked_command_is_set_up_exactly_once. Qed.
+
+Print Assumptions every_event_carrying_command_is_resolved_exactly_once.
 Print Assumptions runner_invariant.
 Print Assumptions root_frame_leaves_nothing.
 Print Assumptions trees_run_to_completion.
